@@ -393,7 +393,7 @@ func judgeTree(x treeExpect, o treeObs) string {
 
 // The order in which EnsureTreeState walks its sub-directory map cannot be driven from outside; every
 // faulty case is therefore repeated (the runtime picks one of the rotations of the map's insertion order).
-func treeFaultRepeats(r *eng.Run) int { return r.Pick(4, 24) }
+func treeFaultRepeats(r *eng.Run) int { return r.Pick(3, 12) }
 
 func runTreePart(r *eng.Run, rp *reporter, base string) stats {
 	var cases []treeCase
